@@ -413,6 +413,9 @@ def check(ctx):
     from .c01 import async_assembly_model as _aam, sync_assembly_model as _sam
     _aam(ctx.borrowed("R10", "C01"), repo)
     _sam(ctx.borrowed("R10", "C01"), repo)
+    ctx.rule("R11", "the update reaches its handler whole: a frame built by send_bytes and handed to the packet layer's handle() gives back exactly the payload, for any payload bytes - a STATP whose last data byte is a blank or a newline is not shortened on the way (C04's symbolic frame round trip borrowed)")
+    from .c04 import framing as _framing5
+    _framing5(ctx.borrowed("R11", "C04", only=("R4",), key_contains="frame-round-trip::payload"), repo)
     ctx.rule("R9", "message sequences end to end: on both stacks the long-lived partial-update handler, wired to the connection's own apply callback, is driven handle / handled per message with builder-made messages (two messages, an empty one in between, one position repeated within and across messages, a one-byte change): the structure receives every change once, in arrival order, and one acknowledgement is queued per message")
     message_sequence_model(ctx, repo, "R9")
     ctx.note("Not decided: interleaving of partial updates with refreshes; an observer raising during the sync apply loop skips the for-else clear (documented residual).")
